@@ -14,4 +14,16 @@ theorem aggPrefix_eq : aggPrefix = common_AggregatedSignaturePrefix := by decide
 theorem txMaxSize_eq : txMaxSize = config_TransactionMaximumSize := by decide
 theorem maskKinds : common_AggregatedSignatureSparseMask = 1 ∧ common_AggregatedSignatureOrdinaryMask = 0 := by decide
 
+/-! The skeletons the theorems rely on: `unmarshalVersionedTransaction` decodes, re-encodes
+    (`marshalWithCapacity`) and compares (`bytes.Equal`); `payloadMarshal` encodes a freshly
+    built `SignedTransaction` (no signatures); `PayloadHash` hashes `PayloadMarshal`. -/
+theorem unmarshal_skeleton :
+    ["DecodeTransaction*1", "Equal*1", "marshalWithCapacity*1"].all
+      (fun c => common_unmarshalVersionedTransaction_calls.contains c) = true := by decide
+theorem payloadMarshal_skeleton :
+    common_VersionedTransaction_payloadMarshal_calls = ["EncodeTransaction*1", "NewEncoder*1", "panic*1"] := by decide
+theorem payloadHash_skeleton :
+    ["Blake3Hash*1", "PayloadMarshal*1"].all
+      (fun c => common_VersionedTransaction_PayloadHash_calls.contains c) = true := by decide
+
 end Mixin.Facts.ExpectedC06
